@@ -54,3 +54,38 @@ def run_sentinel(p: Project, clause: str, modules, floor: int, only_classes=None
                     continue
                 rr.add(finding("SENTINEL", fi, n, f"`{norm(o, 40)}` is tested for truthiness here, but {C.name} treats None as its 'absent' value elsewhere ({', '.join(sorted({f.name for f in ident[a]})[:3])} test it with `is None` / `is not None`): a falsy value that is present - an empty container widget, an empty mapping - is taken for absent", construct=f"truthiness test of None-sentinel attribute {a}"))
     return rr
+
+
+def run_sentinel_consumers(p: Project, clause: str, class_qual: str, consumer_modules, floor: int, exceptions: dict | None = None) -> RuleResult:
+    """The same contradiction across a class boundary: attributes that *class_qual* itself compares with None by
+    identity, tested for truthiness on an instance (`s = Cls(..); if s.attr:`) in the modules that consume it."""
+    exceptions = exceptions or {}
+    C = p.cls(class_qual)
+    rr = RuleResult("SENTINEL", clause, f"attributes {C.name} compares with None by identity are not tested for truthiness on its instances by the code that consumes them", floor=floor)
+    ident = {}
+    for fi in C.methods.values():
+        sn = fi.self_name
+        for n in fi.own_nodes():
+            if isinstance(n, ast.Compare) and len(n.ops) == 1 and isinstance(n.ops[0], (ast.Is, ast.IsNot)) and isinstance(n.comparators[0], ast.Constant) and n.comparators[0].value is None and isinstance(n.left, ast.Attribute) and isinstance(n.left.value, ast.Name) and n.left.value.id == sn:
+                ident.setdefault(n.left.attr, []).append(fi)
+    rr.inst(f"{C.name}: None-sentinel attributes", True, {"class": C.name, "attributes": sorted(ident)})
+    for fi in p.functions.values():
+        if not any(fi.module.name == m or fi.module.name.startswith(m + ".") for m in consumer_modules):
+            continue
+        insts = {t.id for n in fi.own_nodes() if isinstance(n, ast.Assign) and isinstance(n.value, ast.Call) and isinstance(n.value.func, ast.Name) and n.value.func.id == C.name for t in n.targets if isinstance(t, ast.Name)}
+        if fi.cls is C and fi.self_name:
+            continue
+        if not insts:
+            continue
+        for n in fi.own_nodes():
+            tests = [n.test] if isinstance(n, (ast.If, ast.While, ast.IfExp)) else []
+            for t in tests:
+                for o in _bool_operands(t):
+                    if isinstance(o, ast.Attribute) and isinstance(o.value, ast.Name) and o.value.id in insts and o.attr in ident:
+                        key = f"{C.name}.{o.attr}"
+                        rr.inst(f"{short(fi)}:{norm(o, 20)}", True, {"function": short(fi), "test": norm(t, 50)})
+                        if key in exceptions:
+                            rr.exceptions_used.append(f"{key}: {exceptions[key]}")
+                            continue
+                        rr.add(finding("SENTINEL", fi, n, f"`{norm(o, 30)}` is tested for truthiness, but {C.name} uses None as the 'absent' value of `{o.attr}` (it tests it with `is None` / `is not None`): the legitimate value 0 - text offset 0, the very first character - is taken for absent", construct=f"truthiness test of {C.name}.{o.attr} on an instance"))
+    return rr
